@@ -135,7 +135,7 @@ Theorem fifo_exactly_once : forall cap sched pp cp, 2 <= cap ->
   prefix_of (received s) (pushed s) /\
   (cpc s = Idle -> ccode s = 4 -> received s = pushed s).
 Proof.
-  intros cap sched pp cp Hc s. destruct (good_exec false cap sched pp cp Hc) as [C D E]. fold s in C, D, E.
+  intros cap sched pp cp Hc s. destruct (good_exec cap sched pp cp Hc) as [C D E]. fold s in C, D, E.
   split.
   - rewrite (d_recv _ _ D). apply firstn_prefix.
   - intros Hi H4. destruct (e_closed _ E) as [_ Hn]; auto. { rewrite Hi. reflexivity. }
@@ -153,7 +153,7 @@ Theorem no_unwritten_slot : forall cap sched pp cp, 2 <= cap ->
      head s = hpub s mod cap /\ tail s = npub s mod cap /\ ch s = nr s mod cap /\
      nth (N.to_nat (ch s)) (slots s) None = Some (nth (N.to_nat (nr s)) (pushed s) 0)).
 Proof.
-  intros cap sched pp cp Hc s. destruct (good_exec false cap sched pp cp Hc) as [C D E]. fold s in C, D, E.
+  intros cap sched pp cp Hc s. destruct (good_exec cap sched pp cp Hc) as [C D E]. fold s in C, D, E.
   split; [apply (d_bad _ _ D)|]. intros Hw.
   pose proof (d_ord _ _ D) as O. pose proof (d_cwork _ _ D) as W. rewrite Hw in W. cbn in W.
   repeat split; try lia; try apply D.
